@@ -23,6 +23,7 @@ func letter() string {
 
 var innerSpec = hcldec.ObjectSpec{
 	"y": &hcldec.AttrSpec{Name: "y", Type: cty.String},
+	"deep": &hcldec.BlockListSpec{TypeName: "deep", Nested: hcldec.ObjectSpec{"z": &hcldec.AttrSpec{Name: "z", Type: cty.String}}},
 }
 
 var blkSpec = hcldec.ObjectSpec{
@@ -92,7 +93,7 @@ func H_Expand() {
 	}
 	ctx := &hcl.EvalContext{Variables: map[string]cty.Value{"l": l, "t": tup, "m": m, "o": cty.ObjectVal(mvals), "z": cty.StringVal("zz")}}
 
-	which := pick(11)
+	which := pick(12)
 	vf.Observe("template", which)
 	vf.Observe("n", n)
 	var dyn, static string
@@ -163,6 +164,19 @@ func H_Expand() {
 			static += "blk {\n  x = l[" + idx(i) + "]\n"
 			for j := 0; j < n; j++ {
 				static += "  inner {\n    y = \"${m." + keys[j] + "}" + idx(i) + "\"\n  }\n"
+			}
+			static += "}\n"
+		}
+	case 11: // three levels: the innermost block refers to the outermost and the middle iterator
+		dyn = "dynamic \"blk\" {\n  for_each = l\n  content {\n    dynamic \"inner\" {\n      for_each = m\n      content {\n        y = inner.key\n        dynamic \"deep\" {\n          for_each = l\n          content {\n            z = \"${blk.value}${inner.value}${deep.key}\"\n          }\n        }\n      }\n    }\n  }\n}\n"
+		for i := 0; i < n; i++ {
+			static += "blk {\n"
+			for j := 0; j < n; j++ {
+				static += "  inner {\n    y = \"" + keys[j] + "\"\n"
+				for k := 0; k < n; k++ {
+					static += "    deep {\n      z = \"${l[" + idx(i) + "]}${m." + keys[j] + "}" + idx(k) + "\"\n    }\n"
+				}
+				static += "  }\n"
 			}
 			static += "}\n"
 		}
